@@ -33,16 +33,17 @@ TEXT = {
         "technique": "Lean 4 proof (corollary of the C07 scan theorem + injectivity argument) + differential correspondence with executable predicate",
     },
     "C10": {
-        "level_text": "Generic theorems (any storage width w, any K with 2K<=w; instantiated on the table of 19 shipped types regenerated from "
-                      "kmer.rs and checked well-formed by `decide`): get/set_mut, extend_left, extend_right and from_bytes of the bit-level "
-                      "model commute with the corresponding list operations and preserve the 'unused bits are zero' invariant, for all k-mer "
-                      "values, positions and bases. The remaining operations (rc, set_slice_mut, rank conversion, Hamming/AT/GC counts, "
-                      "text) are modelled bit for bit and compared with the crate and with the string-level reference on every run, but their "
-                      "Lean theorems are not yet written.",
+        "level_text": "Every operation of the property is a theorem about the bit-level model, generic in the storage width w and K (1<=K, 2K<=w, w in "
+                      "{8,16,32,64,128}) and therefore valid for all 19 shipped types (the type table is regenerated from kmer.rs and checked "
+                      "well-formed by `decide`), for all k-mer values and all in-range arguments: get, set_mut, set_slice_mut (runs 1..32, garbage "
+                      "below the run irrelevant), extend_left/right, rc (the five reverse_by_twos ladders with the masks/shifts extracted from the "
+                      "source, proved kernel-only), to_u64 / from_u64 and their round trip, from_bytes, from_ascii, to_string, kmers_from_bytes/"
+                      "ascii, hamming_dist, at_count, gc_count (popcount over lane masks) - each commutes with the corresponding operation on the "
+                      "plain K-letter string, and the value-producing ones preserve or establish the 'unused bits are zero' invariant. (min_rc, "
+                      "flip and palindrome are C12.) The same operations are compared with the crate on raw storage words on every run.",
         "design_ref": "DESIGN.md section 6, C10",
-        "level_note": COMMON_NOTE + "Partial: see evidence.partial_theorems. Masks/shift amounts of reverse_by_twos, lower_of_two, the type table and "
-                      "the ASCII tables are regenerated from the source on every run.",
-        "technique": "Lean 4 proof (bit-level refinement, generic width) + generated-constant tie + differential correspondence",
+        "level_note": COMMON_NOTE + "num_traits PrimInt shifts/conversions are those of the primitive integers; count_ones = number of set bits.",
+        "technique": "Lean 4 proof (bit-level refinement, generic width; kernel-decided mask tables) + generated-constant tie + differential correspondence",
     },
     "C11": {
         "level_text": "Theorems (generic width/K, hence all 19 types): under the 'unused bits are zero' invariant the storage integer equals the "
